@@ -346,6 +346,9 @@ class Interp(object):
         # progress output is dropped by the symbolic semantics (DESIGN.md section 7)
         self.contracts[sys.stderr.write] = lambda interp, a, k: None
         self.contracts[sys.stderr.flush] = lambda interp, a, k: None
+        import logging
+        for _n in ("debug", "info", "warning", "error", "critical"):
+            self.contracts[getattr(logging.Logger, _n)] = lambda interp, a, k: None
 
     # ------------------------------------------------------------------ helpers
     @property
@@ -906,7 +909,7 @@ class Interp(object):
     def binop(self, op, a, b, inplace=False):
         if inplace and op is ast.Add and isinstance(a, list) and isinstance(b, SSeq):
             return self.models.container_method(a, "__iadd__", [b], {})
-        if isinstance(a, Sym) or isinstance(b, Sym) or (op is ast.Mod and isinstance(a, str) and has_sym(b)):
+        if isinstance(a, Sym) or isinstance(b, Sym) or (op is ast.Mod and isinstance(a, str) and (has_sym(b) or self._has_interp_str(b))):
             return self.models.binop(op, a, b)
         a2 = self.user_binop(op, a, b)
         if a2 is not NotImplemented:
@@ -915,6 +918,14 @@ class Interp(object):
 
     def user_binop(self, op, a, b):
         return NotImplemented
+
+    def _has_interp_str(self, b):
+        """does %-formatting have to print an object whose __str__ is interpreted code?"""
+        for x in (b if isinstance(b, tuple) else (b,)):
+            f = getattr(type(x), "__str__", None)
+            if isinstance(f, types.FunctionType) and self.should_interpret(f):
+                return True
+        return False
 
     def e_Compare(self, e, env):
         left = self.eval(e.left, env)
